@@ -29,6 +29,7 @@ Hypothesis H_begin : forall c a, R false c a -> R true (b_begin B1 c) (b_begin B
 Hypothesis H_commit : forall c a, R true c a -> R false (b_commit B1 c) (b_commit B2 a).
 Hypothesis H_rollback : forall c a, R true c a ->
   (need_guard = true -> b_rb_ok B1 c = true) -> R false (b_rollback B1 c) (b_rollback B2 a).
+Hypothesis H_rbok : need_guard = true -> forall c a, R true c a -> b_rb_ok B1 c = b_rb_ok B2 a.
 Hypothesis H_starttx : forall b c a, R b c a -> R b (b_starttx B1 c) (b_starttx B2 a).
 Hypothesis H_enter : forall b c a st, R b c a -> R b (b_enter B1 c st) (b_enter B2 a st).
 Hypothesis H_leave : forall b c a st, R b c a -> R b (b_leave B1 c st) (b_leave B2 a st).
@@ -216,7 +217,8 @@ Definition guard_ok (g : bool) : Prop := need_guard = true -> g = true.
 
 Lemma sim_tx : forall t c a, R false c a ->
   match exec_tx B1 c t, exec_tx B2 a t with
-  | (c', t1, rc1, g1), (a', t2, rc2, _) => guard_ok g1 -> R false c' a' /\ TR t1 t2 /\ rc1 = rc2
+  | (c', t1, rc1, g1), (a', t2, rc2, g2) =>
+      (need_guard = true -> g1 = g2) /\ (guard_ok g1 -> R false c' a' /\ TR t1 t2 /\ rc1 = rc2)
   end.
 Proof.
   intros t c a HR. unfold exec_tx.
@@ -227,9 +229,9 @@ Proof.
     destruct (exec_tx_one B1 _ fl t) as [[[c2 t1] rc1] ok1].
     destruct (exec_tx_one B2 _ fl t) as [[[a2 t2] rc2] ok2].
     destruct H as (H1 & H2 & H3 & H4). subst. destruct ok2.
-    + intros _. repeat split; auto.
-    + intros G. repeat split; auto.
-  - intros _. repeat split; auto. constructor.
+    + split; [reflexivity|]. intros _. repeat split; auto.
+    + split; [intro N; apply (H_rbok N _ _ H1)|]. intros G. repeat split; auto.
+  - split; [reflexivity|]. intros _. repeat split; auto. constructor.
 Qed.
 
 Definition TRS := Forall2 TR.
@@ -257,11 +259,12 @@ Qed.
 
 Lemma sim_group : forall ts c a, R false c a ->
   match exec_group B1 c ts, exec_group B2 a ts with
-  | (c', t1, rcs1, g1), (a', t2, rcs2, _) => guard_ok g1 -> R false c' a' /\ TRS t1 t2 /\ rcs1 = rcs2
+  | (c', t1, rcs1, g1), (a', t2, rcs2, g2) =>
+      (need_guard = true -> g1 = g2) /\ (guard_ok g1 -> R false c' a' /\ TRS t1 t2 /\ rcs1 = rcs2)
   end.
 Proof.
   intros ts c a HR. unfold exec_group. destruct ts as [|t0 rest].
-  - intros _. repeat split; auto. constructor.
+  - split; [reflexivity|]. intros _. repeat split; auto. constructor.
   - destruct (sim_fee t0 _ c a HR) as [Hg Hv].
     destruct (exec_fee B1 c t0) as [c1 f1]. destruct (exec_fee B2 a t0) as [a1 f2].
     simpl in Hg, Hv. subst f2. destruct f1 as [fl|].
@@ -273,41 +276,50 @@ Proof.
         destruct (exec_rest B1 c2 rest) as [[[c3 u1] rcs1] k1].
         destruct (exec_rest B2 a2 rest) as [[[a3 u2] rcs2] k2].
         destruct HR2 as (I1 & I2 & I3 & I4). subst. destruct k2.
-        -- intros _. repeat split; auto. constructor; auto.
-        -- intros G. repeat split; auto. constructor; auto.
-      * intros G. repeat split; auto. constructor; auto. apply TRS_nils.
-    + intros _. repeat split; auto. apply (TRS_nils (t0 :: rest)).
+        -- split; [reflexivity|]. intros _. repeat split; auto. constructor; auto.
+        -- split; [intro N; apply (H_rbok N _ _ I1)|]. intros G. repeat split; auto. constructor; auto.
+      * split; [intro N; apply (H_rbok N _ _ H1)|].
+        intros G. repeat split; auto. constructor; auto. apply TRS_nils.
+    + split; [reflexivity|]. intros _. repeat split; auto. apply (TRS_nils (t0 :: rest)).
 Qed.
 
 Lemma sim_item : forall it c a, R false c a ->
   match exec_item B1 c it, exec_item B2 a it with
-  | (c', t1, rcs1, g1), (a', t2, rcs2, _) => guard_ok g1 -> R false c' a' /\ TRS t1 t2 /\ rcs1 = rcs2
+  | (c', t1, rcs1, g1), (a', t2, rcs2, g2) =>
+      (need_guard = true -> g1 = g2) /\ (guard_ok g1 -> R false c' a' /\ TRS t1 t2 /\ rcs1 = rcs2)
   end.
 Proof.
   intros [t|ts] c a HR; simpl.
   - pose proof (sim_tx t c a HR) as H.
     destruct (exec_tx B1 c t) as [[[c1 t1] rc1] g1]. destruct (exec_tx B2 a t) as [[[a1 t2] rc2] g2].
+    destruct H as [HG H]. split; [exact HG|].
     intros G. destruct (H G) as (H1 & H2 & H3). subst. repeat split; auto. constructor; auto.
   - apply sim_group, HR.
 Qed.
 
 Theorem sim_block : forall blk c a, R false c a ->
   match exec_block B1 c blk, exec_block B2 a blk with
-  | (c', t1, rcs1, g1), (a', t2, rcs2, _) => guard_ok g1 -> R false c' a' /\ TRS t1 t2 /\ rcs1 = rcs2
+  | (c', t1, rcs1, g1), (a', t2, rcs2, g2) =>
+      (need_guard = true -> g1 = g2) /\ (guard_ok g1 -> R false c' a' /\ TRS t1 t2 /\ rcs1 = rcs2)
   end.
 Proof.
   induction blk as [|it tl IH]; intros c a HR; simpl.
-  - intros _. repeat split; auto. constructor.
+  - split; [reflexivity|]. intros _. repeat split; auto. constructor.
   - pose proof (sim_item it c a HR) as H.
     destruct (exec_item B1 c it) as [[[c1 t1] rcs1] g1]. destruct (exec_item B2 a it) as [[[a1 t2] rcs2] g2].
+    destruct H as [HG H].
     destruct (exec_block B1 c1 tl) as [[[c2 u1] rs1] k1] eqn:E1.
     destruct (exec_block B2 a1 tl) as [[[a2 u2] rs2] k2] eqn:E2.
-    intros G.
-    assert (G1 : guard_ok g1) by (intro N; specialize (G N); apply andb_true_iff in G; tauto).
-    assert (G2 : guard_ok k1) by (intro N; specialize (G N); apply andb_true_iff in G; tauto).
-    destruct (H G1) as (H1 & H2 & H3). subst.
-    specialize (IH _ _ H1). rewrite E1, E2 in IH. destruct (IH G2) as (I1 & I2 & I3). subst.
-    repeat split; auto. apply Forall2_app; auto.
+    split.
+    + intro N. specialize (HG N). subst g2. destruct g1; [|reflexivity].
+      destruct (H (fun _ => eq_refl)) as (H1 & _).
+      specialize (IH _ _ H1). rewrite E1, E2 in IH. destruct IH as [IG _]. simpl. apply IG, N.
+    + intros G.
+      assert (G1 : guard_ok g1) by (intro N; specialize (G N); apply andb_true_iff in G; tauto).
+      assert (G2 : guard_ok k1) by (intro N; specialize (G N); apply andb_true_iff in G; tauto).
+      destruct (H G1) as (H1 & H2 & H3). subst.
+      specialize (IH _ _ H1). rewrite E1, E2 in IH. destruct IH as [_ IH]. destruct (IH G2) as (I1 & I2 & I3). subst.
+      repeat split; auto. apply Forall2_app; auto.
 Qed.
 
 End Gen.
